@@ -5,7 +5,7 @@
    fmt: 1 = V1, 2 = V2, 3 = length-prefixed helper.
    case (10 fmt cipher keyseed #stream (chunk ...) nreads expect)     arbitrary stream, ReadHeadBody then
         observed ((dec) (unzip) (rres ...))                      UnmarshalPacket as qnet does
-          rres = (panicked errkind pkt|#data consumed wanted maxcap allocdelta)
+          rres = (panicked errkind pkt|#data consumed wanted maxcap retcap allocflag)
    case (11 fmt cipher keyseed #frame mode lo hi)               a valid frame damaged: mode 0 flips
         observed ((dec) (unzip) (panicked errkind) (res ...))    bit i, mode 1 cuts after i bytes,
           res = (panicked errkind consumed wanted maxcap)        for lo <= i < hi   (ReadPacket)
@@ -53,7 +53,7 @@ Fixpoint check_singles (dec : bytes -> bytes) (unzip : bytes -> option bytes) (f
          (has_dec : bool) (total : N) (s : stream) (os : list sx) : verdict :=
   match os with
   | [] => VOk
-  | SList [SInt pn; SInt kind; res; SInt consumed; SInt wanted; SInt maxcap; SInt alloc] :: os' =>
+  | SList [SInt pn; SInt kind; res; SInt consumed; SInt wanted; SInt maxcap; SInt retcap; SInt aflag] :: os' =>
       let m := model_decode dec unzip fmt has_dec total s in
       let same_result :=
         match d_pkt m, d_data m with
@@ -67,15 +67,13 @@ Fixpoint check_singles (dec : bytes -> bytes) (unzip : bytes -> option bytes) (f
                check_that (N.eqb (d_consumed m) (Z.to_N consumed)) (VMismatch 3);
                check_that (N.eqb (d_wanted m) (Z.to_N wanted) && N.eqb (d_maxcap m) (Z.to_N maxcap))
                           (VMismatch 4);
-               (* allocation measured by the run-time: at least what the model allocates, at most
-                  that plus size-class rounding and small objects; -1 = not measured *)
-               check_that ((alloc <? 0)%Z ||
-                           ((d_alloc m <=? Z.to_N alloc)
-                            && (Z.to_N alloc <=? d_alloc m + d_alloc m / 4 + 16384))) (VMismatch 5) ] in
+               (* the payload buffer handed back has exactly the capacity the model allocates *)
+               check_that ((retcap <? 0)%Z || N.eqb (d_alloc m) (Z.to_N retcap)) (VMismatch 5) ] in
       let prop :=
         vall [ bounded fmt pn (Z.to_N wanted) (Z.to_N maxcap);
-               check_that ((alloc <? 0)%Z || (Z.to_N alloc <=? fmt_max fmt + fmt_max fmt / 4 + 16384))
-                          (VPropFail 4) ] in
+               check_that ((retcap <? 0)%Z || (Z.to_N retcap <=? fmt_max fmt)) (VPropFail 3);
+               (* run-time allocation counter over the maximum on two consecutive measurements *)
+               check_that (negb (Z.eqb aflag 1)) (VPropFail 4) ] in
       vjoin (vjoin prop corr) (check_singles dec unzip fmt has_dec total (d_rest m) os')
   | _ => VBad
   end.
